@@ -15,7 +15,7 @@ from mc.util import Ctx, affine
 
 PROPERTY = "C08"
 RULE = (
-    "complete product: 4 UBMs (C<=3, D<=2, unequal variances) x 5 statistics sets (from data: 1-3 objects incl. fractional "
+    "complete product: 5 UBMs (C<=3, D<=2, unequal variances, one far from the origin) x 5 statistics sets (from data: 1-3 objects incl. fractional "
     "counts; synthetic incl. a zero-frame object) x 4 model sets (1-3 models, the UBM itself, linear combinations) ; per case "
     "all presentations x offsets {none,(C,D),(N,C,D)} x normalisation x UBM-as {prior, MAP machine}. Non-trivial: the score "
     "matrix has >= 2 distinct non-zero entries; distinct = distinct case"
@@ -28,7 +28,9 @@ UBMS = [
     dict(mu=[[0.0, 1.0], [4.0, 4.5]], var=[[1.0, 2.0], [0.5, 4.0]], w=[0.375, 0.625]),
     dict(mu=[[-3.0, 2.5], [2.5, 2.5], [10.0, -0.5]], var=[[1.0, 0.25], [4.0, 1.0], [2.0, 8.0]], w=[0.25, 0.5, 0.25]),
     dict(mu=[[2.5, -3.0]], var=[[0.5, 2.0]], w=[1.0]),
+    dict(mu=[[20000.0, -50000.0], [20004.0, -49995.5]], var=[[1.0, 2.0], [0.5, 4.0]], w=[0.375, 0.625], shift=[20000.0, -50001.0]),
 ]
+SHIFT = [np.zeros(2)]
 FRAMES = [
     [[0.0, 0.5], [1.0, 1.0], [4.5, 4.0]],
     [[3.5, 5.0], [4.0, 4.0]],
@@ -53,7 +55,7 @@ def _stats(ubm, ss, s, o):
     from bob.learn.em import GMMStats
 
     C, D = ubm.means.shape
-    fr = [np.array(f, float)[:, :D] * s + o for f in FRAMES]
+    fr = [np.array(f, float)[:, :D] * s + o + SHIFT[0][:D] for f in FRAMES]
     if ss == 0:
         return [ubm.acc_stats(fr[0])]
     if ss == 1:
@@ -96,6 +98,7 @@ def run_case(case):
     s, o = affine(case["seed"])
     ubm = _ubm(UBMS[case["ubm"]], s, o)
     C, D = ubm.means.shape
+    SHIFT[0] = np.array(UBMS[case["ubm"]].get("shift", [0.0, 0.0]), float) * s
     stats = _stats(ubm, case["sset"], s, o)
     models = _models(ubm, case["mset"], s)
     um, uv = np.asarray(ubm.means, float), np.asarray(ubm.variances, float)
@@ -191,7 +194,7 @@ def run_case(case):
         c.close(lhs, rhs, "additivity", "score of pooled statistics vs sum of scores", {}, scale=scale * 2)
         c.transitions += 2
     # derivative identity: d/de sum log p(X | m + e*delta) at e = 0 equals the score of acc_stats(X)
-    X = np.array(FRAMES[2], float)[:, :D] * s + o
+    X = np.array(FRAMES[2], float)[:, :D] * s + o + SHIFT[0][:D]
     delta = models[0] - um
     if np.abs(delta).max() > 0:
         h = 2.0**-12
